@@ -204,6 +204,9 @@ void *ivw_malloc(size_t n)
 {
 	void *p = malloc(n);
 	if (p) {
+		/* what malloc() returns is indeterminate: make it all-ones so that a field the library forgets to
+		 * initialise (a flag word, a pointer) is never accidentally zero */
+		memset(p, 0xff, n);
 		__atomic_add_fetch(&env_lib_allocs_live, 1, __ATOMIC_RELAXED);
 		__atomic_add_fetch(&env_lib_allocs_total, 1, __ATOMIC_RELAXED);
 	}
